@@ -4,7 +4,7 @@ import copy
 import functools
 
 from .core import SimOptions, canon, SimCrash, SimWatchdog, SimKill
-from .env import Env, make_exception
+from .env import Env, make_exception, SimBaseError
 from .refvm import RefVM, RefRuntimeError, RefParserError, HostFailure, RefCap, HOST_NAMES, LibFn
 from . import resolve as _resolve
 
@@ -165,6 +165,8 @@ def run_real(plan, limit='absent', sim_options=True, hook=None, env=None, on_eve
         out.error = ('watchdog', str(exc))
     except Exception as exc:  # pylint: disable=broad-except
         out.error = ('host', type(exc).__name__, str(exc)[:200])
+    except SimBaseError as exc:
+        out.error = ('host', 'SimBaseError', str(exc)[:200])
     out.events = env.events
     out.count = options.get('statementCount')
     out.starts = starts[0]
